@@ -407,8 +407,12 @@ fn handle_item(
             handle_body(body, &mut dest, scope, file_context)?;
         }
         Item::Comment(c) => {
-            if !scope.get_format().is_compressed() {
-                dest.push_comment(c.evaluate(scope)?.take_value().into());
+            // The interpolation is evaluated (and may fail or have side
+            // effects) in any style; the style only decides the output.
+            let compressed = scope.get_format().is_compressed();
+            let c = c.evaluate(scope)?;
+            if !compressed {
+                dest.push_comment(c.take_value().into());
             }
         }
         Item::None => (),
